@@ -156,7 +156,7 @@ struct Runner {
 // ------------------------------------------------------------------------------------------------
 // harness-owned fake control endpoint
 struct FakeEndpoint {
-    enum class Mode { Bytes, Error, NoPayload, ShortStream };
+    enum class Mode { Bytes, Error, NoPayload, ShortStream, NoSection };   // NoSection: success claimed for an empty delivery, no payload section at all
     int lfd = -1;
     std::uint16_t port = 0;
     std::thread th;
@@ -233,6 +233,11 @@ struct FakeEndpoint {
                 std::string h;
                 if (f["COMMAND"] != "FETCH" || m == Mode::Error) {
                     h = "STATUS:ERROR\nCODE:ERR_FETCH_CHUNK_MISSING\nMESSAGE:Chunk not available locally\nHINT:none\n\n";
+                    send_all(c, h.data(), h.size());
+                } else if (m == Mode::NoSection) {
+                    // "the chunk is empty": STATUS:OK without OUTPUT and without a payload section, SIZE 0 / absent / with STREAM:CLIENT
+                    const long v = xv % 3;
+                    h = std::string("STATUS:OK\nCODE:OK_FETCH\n") + (v == 0 ? "SIZE:0\nSTREAM:CLIENT\n" : v == 1 ? "SIZE:0\n" : "") + extra_headers(xv, b) + "\n";
                     send_all(c, h.data(), h.size());
                 } else if (m == Mode::NoPayload) {
                     h = "STATUS:OK\nCODE:OK_FETCH\nOUTPUT:/nonexistent/verif-daemon-side\nSIZE:" + std::to_string(b.size()) + "\n" + extra_headers(xv, b) + "\n";
@@ -555,7 +560,7 @@ void do_case(const ev::Cmd& c) {
             } else {
                 auto& f = *W.fake.at(h.path);
                 using M = FakeEndpoint::Mode;
-                f.set(h.resp == "error" ? M::Error : h.resp == "nopayload" ? M::NoPayload : h.resp == "shortstream" ? M::ShortStream : M::Bytes, h.body, var + static_cast<long>(&h - chain.data()));
+                f.set(h.impl == "nosection" ? M::NoSection : h.resp == "error" ? M::Error : h.resp == "nopayload" ? M::NoPayload : h.resp == "shortstream" ? M::ShortStream : M::Bytes, h.body, var + static_cast<long>(&h - chain.data()));
                 port = f.port;
             }
         }
